@@ -190,6 +190,15 @@ def map_call(ctx, i):
                     check_stream(ctx, o, spec, "p", f"async-map-k{mc}", case)
                 else:
                     empty_map(ctx, o, f"async-map-k{mc}", case)
+    # a map() call with a concurrency limit that admits nothing (0) or is no count at all (-1): whatever the library
+    # makes of it - a rejected call (nothing delivered, no shutdown) or a terminated map (a complete span tree, one
+    # shutdown) - it must not be a mixture of the two
+    if n > 0:
+        for bad_limit in (-1, 0):
+            case = {"family": "runner.map", "spec": spec, "inputs": inputs, "over": over, "max_concurrency": bad_limit}
+            o = core.execute(core.with_async(spec, True, rng), inputs, "async", max_concurrency=bad_limit, processors=[ARec("p", rng, 1)], map_over=over, error_handling="raise")
+            ctx.obs["invalid_limit_map_calls"] += 1
+            check_stream(ctx, o, spec, "p", f"async-map-k{bad_limit}", case)
     # a map() call that cannot run (a required input is missing, errors are raised): rejected, nothing delivered
     from hgmon import ref
 
